@@ -521,6 +521,27 @@ def shadow_gate_open(vcfg: dict) -> bool:
                 and _get_path(vcfg, "t2.quality.shadow", False) and not _get_path(vcfg, "t2.quality.enabled", False))
 
 
+def forbidden_artefacts(vcfg: dict, tree: Dict[str, bytes]) -> List[Tuple[str, str]]:
+    """Absolute clause of the property: (gate, path) of every artefact of a feature whose gate is OFF in vcfg."""
+    out: List[Tuple[str, str]] = []
+    perf_on = bool(_get_path(vcfg, "perf.enabled", False))
+    trace_ok = bool(perf_on and _get_path(vcfg, "perf.metrics.report_memory", False)
+                    and (_get_path(vcfg, "t2.quality.shadow", False) or _get_path(vcfg, "t2.quality.enabled", False)))
+    for k in sorted(tree):
+        name = os.path.basename(k.rstrip("/"))
+        if k == "logs/gel.jsonl" and not _get_path(vcfg, "graph.enabled", False):
+            out.append(("graph", k))
+        elif k == "logs/t3_reflection.jsonl" and not _get_path(vcfg, "t3.allow_reflection", False):
+            out.append(("reflection", k))
+        elif k == "logs/scheduler.jsonl" and not _get_path(vcfg, "scheduler.enabled", False):
+            out.append(("scheduler", k))
+        elif not perf_on and (k.startswith("logs/perf/") or name.endswith("-perf.jsonl")):
+            out.append(("perf", k))
+        elif name == "rq_traces.jsonl" and not trace_ok:
+            out.append(("quality", k))
+    return out
+
+
 def allowed_extra_for(raw: dict, vcfg: dict, ref_vcfg: dict) -> Tuple[str, ...]:
     if shadow_gate_open(vcfg) and not shadow_gate_open(ref_vcfg):
         td = _get_path(vcfg, "t2.quality.trace_dir", "logs/quality")
@@ -547,12 +568,10 @@ _REF_MEMO: Dict[str, Any] = {}
 
 
 def _load_ref(scratch: str, key: str):
-    r = _REF_MEMO.get(key)
-    if r is None:
+    if key not in _REF_MEMO:
         with open(os.path.join(scratch, "refs", key + ".pkl"), "rb") as f:
-            r = pickle.load(f)
-        _REF_MEMO[key] = r
-    return r
+            _REF_MEMO[key] = pickle.load(f)
+    return _REF_MEMO[key]
 
 
 def _ref_worker(chunk, st: Stats, scratch: str):
@@ -564,15 +583,28 @@ def _ref_worker(chunk, st: Stats, scratch: str):
         b = execute(wdir, world, raw, seq, "ref")
         st.add("transitions", 2 * len(seq))
         st.add("reference_runs", 2)
+        # absolute clause: no artefact of a feature whose gate is off, even without any subtree
+        vcfg = _validate(raw)
+        bad = forbidden_artefacts(vcfg, a.get("tree", {})) + forbidden_artefacts(vcfg, b.get("tree", {}))
+        st.add("validated", 2)
+        for g2, path in bad:
+            st.violation("%s:-:artefact:%s" % (g2, path),
+                         "base %s (gate of %s OFF, subtree absent), %s, turns %s: artefact %s was written" % (
+                             bname, g2, world, seq, path),
+                         {"gate": gname, "base": bname, "assign": [], "world": world, "turns": seq})
+            st.distinct("outcomes", "artefact-with-gate-off:%s" % path)
         d = diff(a, b)
-        if d is not None:
+        if d is not None and not bad:
             raise HarnessError("harness nondeterministic: base %s world %s seq %s: %s" % (bname, world, seq, d))
-        if a["error"]:
+        if a["error"] and not bad:
             raise HarnessError("reference run raised on base %s world %s seq %s: %s %s" % (
                 bname, world, seq, a["error"], a.get("error_msg")))
+        if d is not None or a["error"]:
+            a = None  # unusable as a reference (already reported as a violation above)
         with open(os.path.join(scratch, "refs", _ref_key(gname, bname, world, seq) + ".pkl"), "wb") as f:
             pickle.dump(a, f)
-        st.distinct("ref_logsets", sorted(k for k in a["tree"] if k.startswith("logs/")))
+        if a is not None:
+            st.distinct("ref_logsets", sorted(k for k in a["tree"] if k.startswith("logs/")))
     shutil.rmtree(wdir, ignore_errors=True)
 
 
@@ -655,6 +687,9 @@ def _assign_worker(chunk, st: Stats, scratch: str, thorough: bool):
             for world in WORLDS:
                 for seq in seqs:
                     ref = _load_ref(scratch, _ref_key(gname, bname, world, seq))
+                    if ref is None:
+                        st.add("skipped_reference_unusable")
+                        continue
                     var = execute(wdir, world, raw, seq, "var")
                     executed_any = True
                     st.add("transitions", len(seq))
@@ -749,14 +784,21 @@ def run(run: Run) -> None:
     items.sort(key=lambda it: h64([it[0], it[1]]))
     run.pmap(_assign_worker, items, extra=(run.scratch, run.thorough), chunks=min(len(items), 16 * 12))
 
+    if run.thorough:
+        scope = ("k=1: every menu value x every base of the menu with the gate OFF (incl. 'all other gates ON') x "
+                 "worlds {W1,W2} x 4 representative 2-turn sequences, and ALL 36 two-turn sequences over agents {A,B} "
+                 "x texts {apple, pear fig, zzz} on base 'base'; k=2: every pair of leaves x the two most active "
+                 "values of each x bases {'base', 'all other gates ON'} x {W1,W2} x 4 sequences")
+    else:
+        scope = ("k=1: every menu value x the 10 main bases with the gate OFF (incl. 'all other gates ON') x worlds "
+                 "{W1,W2} x 3 representative 2-turn sequences over agents {A,B} x texts {apple, pear fig, zzz}")
     run.rule = (
-        "for each of the 7 gates: every assignment of the gate's subtree (leaves derived from configs/validate.py "
-        "ALLOWED_* tables) with <=k leaves set (k=1: every menu value; k=2: the two most active values per leaf), "
-        "validated by validate_config (rejections counted), x every base configuration of the menu with the gate OFF "
-        "(k=2: bases 'base' and 'all other gates ON') x worlds {W1,W2} x 2-turn sequences over agents {A,B} x texts "
-        "{apple, pear fig, zzz} (all 36 sequences for base 'base' in the thorough k=1 leg, 4 representative ones "
-        "elsewhere); each run is compared with the same base without the subtree. non-trivial = an assignment whose "
-        "validated configuration differs from the reference's and that was executed")
+        "for each of the 7 gates: every assignment of the gate's subtree (leaves derived from the ALLOWED_* tables of "
+        "configs/validate.py) with <=k leaves set, validated by validate_config (rejections counted and skipped); "
+        + scope + "; each execution of the real orchestrator is compared (utterances, complete file tree incl. "
+        "directory listing, state_digest after every turn) with the same base without the subtree; every reference "
+        "is executed twice (determinism) and checked for artefacts of features whose gate is off. non-trivial = an "
+        "assignment whose validated configuration differs from the reference's and that was executed")
     run.assume("committed reading of subtree boundaries (DESIGN C02): parallel gate = perf.parallel.enabled "
                "(perf.enabled not required); scheduler.budgets.{time_ms,ops}_reflection belong to the reflection gate")
     run.assume("the quality shadow trace (rq_traces.jsonl) sits behind the PERF gate (docs/m7: perf.enabled && "
@@ -782,6 +824,10 @@ def replay(case):
         if base_raw is None:
             raise HarnessError("unknown base %r for gate %s" % (case["base"], g))
         assign = [list(x) for x in case["assign"]]
+        if not assign:
+            obs = execute(d, case["world"], base_raw, case["turns"], "ref")
+            return [("%s:-:artefact:%s" % (g2, path), "artefact %s written with the gate of %s off" % (path, g2))
+                    for g2, path in forbidden_artefacts(_validate(base_raw), obs.get("tree", {}))]
         res = check_case(d, g, base_raw, assign, case["world"], [tuple(t) for t in case["turns"]])
         if res is None:
             return []
